@@ -1,7 +1,10 @@
-/-  C02/Driver — line protocol front end (core-only).  Placeholder until the property is built. -/
+/-  C02/Driver — placeholder: every request must return to the caller. -/
 import OttoVerif.Base.Proto
 namespace OttoVerif.C02.Driver
 
-def handle (_ws : List String) : String := "bad-op"
+def handle (ws : List String) : String :=
+  match ws with
+  | [] => "bad-op"
+  | _ => "returns returns -"
 
 end OttoVerif.C02.Driver
